@@ -69,13 +69,12 @@ impl ClassBody {
 }
 
 impl Dependencies for ClassBody {
+    /// Nothing a class declares can be used by its members under a bare name: fields and
+    /// methods are reached through `self`, and the parameters of one member are its own (each
+    /// member nets them itself).  A bare name in a member is a variable of the enclosing scopes,
+    /// which the class therefore has to capture.
     fn supplies(&self) -> Vec<Dependency> {
-        let mut features_sup: Vec<Dependency> =
-            self.features.iter().flat_map(|x| x.supplies()).collect();
-
-        features_sup.append(&mut self.constructor.supplies());
-
-        features_sup
+        vec![]
     }
 
     fn dependencies(&self) -> Vec<Dependency> {
